@@ -628,7 +628,7 @@ def run_cases(rep, client, cases, lines, expect, meta):
 def check(rep):
     rng = random.Random(common.seed() * 7919 + 20)
     thorough = rep.tier == 'thorough'
-    rep.rule = ('well-behaved server: grid item count n x page size p (quick: n in 0..14, p in 1..5; thorough: n in 0..40, p in 1..9) for each of '
+    rep.rule = ('well-behaved server: grid item count n x page size p (quick: n in 0..20, p in 1..6; thorough: n in 0..40, p in 1..9) for each of '
                 'queue.list and exchange.list (per vhost, random vhost names incl. reserved characters, and show_all), connection.list, '
                 'channel.list, rotating over {no filter, substring filter, regex filter + flag, filter matching nothing, flag only}; default '
                 'page sizes (argument omitted) around the page boundaries 0, 99, 100, 101, 200, 201; random large pairs (n <= 6000, '
@@ -657,7 +657,7 @@ def check(rep):
                 c['script'] = [tuple(tuple(x) if isinstance(x, list) else x for x in s) for s in c['script']]
             cases.append(c)
     # -- grid ----------------------------------------------------------------------------------
-    nmax, pmax = (40, 9) if thorough else (14, 5)
+    nmax, pmax = (40, 9) if thorough else (20, 6)
     filts = ['none', 'sub', 'rx', 'sub-none', 'flag-only']
     rot = 0
     for shape in SHAPES:
@@ -673,7 +673,7 @@ def check(rep):
             cases.append(make_case(rng, shape, n, 'default', rng.choice(filts)))
             cases.append(make_case(rng, shape, n, None, rng.choice(filts)))
     # -- random large --------------------------------------------------------------------------
-    for _ in range(40 if not thorough else 400):
+    for _ in range(80 if not thorough else 400):
         shape = rng.choice(SHAPES)
         p = rng.choice([rng.randint(1, 9), rng.randint(10, 100), rng.randint(100, 500), rng.randint(500, 3000)])
         n = rng.randint(0, min(6000, p * 400))
@@ -683,7 +683,7 @@ def check(rep):
             n = (n // p) * p + 1
         cases.append(make_case(rng, shape, n, p, rng.choice(filts)))
     # -- HTTPClient.list directly --------------------------------------------------------------
-    for _ in range(60 if not thorough else 600):
+    for _ in range(150 if not thorough else 600):
         n, p = rng.randint(0, 30), rng.choice([None, 1, 2, 3, 7, 10, 0, -1])
         c = {'op': 'http', 'path': rng.choice(['queues', 'exchanges/%2F', 'nodes', 'a/b/c', 'vhosts']), 'n': n, 'prefix': 'q',
              'page_size': p}
@@ -696,7 +696,7 @@ def check(rep):
             c['flag'] = rng.choice([1, -3, 0, 'yes', 'False', ''])
         cases.append(c)
     # -- scripted misbehaving servers ------------------------------------------------------------
-    for _ in range(400 if not thorough else 6000):
+    for _ in range(1200 if not thorough else 6000):
         cases.append(make_script_case(rng, rng.choice(SHAPES + [('queue.list', False)])))
     run_cases(rep, client, cases, lines, expect, meta)
 
